@@ -117,7 +117,7 @@ func init() {
 			c.Check(nSet == 1, "bit-set-sites", "", "exactly one bit-setting store", fmt.Sprintf("%d bit-setting stores", nSet))
 			// push is reached on the delivery path, or to record a refused (duplicate) TSN
 			canPush := c.Fn("receivePayloadQueue.canPush")
-			gates := fnSet(c.fns("Association.pushPayloadDataToStream"))
+			gates := fnSet([]*ssa.Function{c.deliverFn()})
 			reach := c.P.ReachableAvoiding(c.P.Roots(), gates)
 			for _, cs := range c.P.CallSitesOf(push) {
 				if cs.Instr.Common().StaticCallee() != push {
